@@ -7,11 +7,20 @@ def run(ctx):
     vlib.build_harness(ctx)
     mc.mc_meta(ctx)
     n = 2000 if ctx.thorough else 250
-    beh = mc.gen_meta(ctx, "beh.ndjson", n, 14, True, False, True, '{"label"}', maxbundles=7)
-    cfgs = [["--leaf", "64"] + (["--crc"] if ctx.seed % 2 else [])]
+    beh = mc.gen_meta(ctx, "beh.ndjson", n, 14, True, False, True, '{"label"}', maxbundles=7, labelw=5)
+    cfgs = [["--leaf", "4096"] + (["--crc"] if ctx.seed % 2 else []), ["--leaf", "4096", "--list-conc", "1", "--final-download=false"]]
     if ctx.thorough:
         cfgs += [["--leaf", "64", "--batch", "2", "--crc"], ["--leaf", "4096", "--batch", "1"]]
     results = vlib.parallel(mc.replay_jobs(ctx, beh, cfgs), max_workers=4)
+    # exhaustive scripted scenarios: 3 uploads (complete / interrupted) x label placements x squash options
+    scripted = mc.gen_meta(ctx, "scripted.ndjson", 0, 12, True, False, True, '{"label"}', maxbundles=9, script="squash")
+    if not ctx.thorough:
+        # a seed-dependent third of the scenarios in the quick tier
+        lines = open(scripted).read().splitlines()
+        open(scripted, "w").write("\n".join(lines[ctx.seed % 3::3]) + "\n")
+    results.append(vlib.replay_sharded(ctx, "meta", scripted, "scripted",
+                                       ["--leaf", "65536", "--list-conc", "1", "--final-download=false", "--deep=false",
+                                        "--seed", str(ctx.seed)], shards=14))
     return mc.finish(ctx, results,
                      "behaviour = random walk over uploads, uploads interrupted at every metadata write (leftovers older, "
                      "between and newer than the committed bundles), labels (semver: v1.2.3, 1.0.0; others: latest, a_b), "
